@@ -25,7 +25,7 @@ func ruleFulfillTarget(ctx *Ctx, rule string) {
 		return
 	}
 	found := false
-	for _, b := range f.Blocks {
+	for _, b := range frameBlocks(f) {
 		for _, in := range b.Instrs {
 			st, ok := in.(*ssa.Store)
 			if !ok {
@@ -71,7 +71,7 @@ func ruleJoinState(ctx *Ctx, rule string) {
 		return
 	}
 	n := 0
-	for _, b := range f.Blocks {
+	for _, b := range frameBlocks(f) {
 		for _, in := range b.Instrs {
 			call, ok := in.(*ssa.Call)
 			if !ok || ssaq.StaticCalleeName(call) != "sync.(*Mutex).Unlock" {
@@ -96,7 +96,7 @@ func ruleJoinState(ctx *Ctx, rule string) {
 	}
 	// (c) clientsRefs transfer
 	moved, zeroed := false, false
-	for _, b := range f.Blocks {
+	for _, b := range frameBlocks(f) {
 		for _, in := range b.Instrs {
 			st, ok := in.(*ssa.Store)
 			if !ok {
